@@ -215,6 +215,12 @@ impl Searcher {
             }
         }
 
+        // A node whose search was cut short by the clock has only looked at some of its
+        // moves; its result is not a valid bound and must not be cached
+        if self.timer.should_stop() {
+            return best_result;
+        }
+
         let bound = self.determine_bound(best_result.score, original_alpha, beta);
         self.store_in_transposition_table(board, &best_result, depth, bound);
 
